@@ -185,7 +185,8 @@ func TestC29_ArbitraryTable(t *testing.T) {
 	ev := harn.For("C29").Rule(c29Rule)
 	ev.Assume("peer index MaxUint32 is the code's documented 'no peer' sentinel and is not generated as a member index")
 	ev.Floor("path:fill", "", 0.10)
-	harn.Check(t, 12000, 1200000, func(t *rapid.T) {
+	ev.Floor("path:table-only", "", 0.10)
+	harn.Check(t, 8000, 1200000, func(t *rapid.T) {
 		c := rapid.IntRange(1, 5).Draw(t, "C")
 		n := 3*c + 1 + rapid.IntRange(0, 5).Draw(t, "slack")
 		idx := genIndices(t, n)
@@ -195,7 +196,7 @@ func TestC29_ArbitraryTable(t *testing.T) {
 		}
 		// table
 		var d int
-		switch rapid.IntRange(0, 6).Draw(t, "dKind") {
+		switch rapid.IntRange(0, 8).Draw(t, "dKind") {
 		case 0:
 			d = 1
 		case 1:
@@ -204,7 +205,7 @@ func TestC29_ArbitraryTable(t *testing.T) {
 			d = 3 * c
 		case 3:
 			d = 3*c + 1
-		case 4:
+		case 4, 6, 7:
 			d = n
 		default:
 			d = rapid.IntRange(1, n).Draw(t, "d")
@@ -272,7 +273,7 @@ func TestC29_ArbitraryTable(t *testing.T) {
 
 func TestC29_GenesisTableAndSeed(t *testing.T) {
 	ev := harn.For("C29").Rule(c29Rule)
-	harn.Check(t, 6000, 600000, func(t *rapid.T) {
+	harn.Check(t, 4000, 600000, func(t *rapid.T) {
 		c := rapid.IntRange(1, 5).Draw(t, "C")
 		k := 3*c + 1 + rapid.IntRange(0, 5).Draw(t, "slack")
 		cand := k + rapid.IntRange(0, 4).Draw(t, "extra")
